@@ -12,6 +12,7 @@ import (
 var props = map[string]func(tier string) []Scen{
 	"C01": scenariosC01,
 	"C10": scenariosC10,
+	"C13": scenariosC13,
 	"C14": scenariosC14,
 	"C17": scenariosC17,
 	"C15": scenariosC15,
@@ -23,6 +24,7 @@ const ruleA = "every scenario (a closed thread set with scripts) is explored exh
 var rules = map[string]string{
 	"C01": ruleA + "; scenarios = call scripts (target x flags x handler reply script) on 1-3 connections x segmentations of the request bytes; per connection the frames received and the handler invocation log are compared with a sequential reference model of that connection alone",
 	"C10": ruleA + "; scenarios = frame-kind sequences (valid calls, wrong-shape JSON, invalid JSON, empty frame, 5 KiB frame, unterminated tail) x the byte offset at which the client stops x how it goes away (half-close, close, abort) x injected reply-write failure, with a well-behaved probe connection and a final Shutdown; schedule deviations are explored at frame-boundary offsets",
+	"C13": ruleA + "; scenarios = all histories up to the length bound over {register(name, description) for 6 name/description pairs incl. duplicates, the built-in name and a resolver, serve, shutdown, query}; a query runs the library's own client helpers (GetInfo, GetInterfaceDescription for every mentioned name, its prefix, case variant and extension, Resolver.GetInfo/Resolve) over a controlled connection and compares with a list+map reference model",
 	"C14": ruleA,
 	"C17": ruleA + "; scenarios = sequences of <=3 operations {ReadBytes, raw Read, Write} on a ctxio connection, the first 1-2 under a cancellable context x cancel|deadline x 3 segmentations of the peer stream x a coarse gate (operation index, chunks written) after which the cancellation step becomes enabled; the scheduler then places the cancellation (and, for deadlines, the connection's own deadline expiry, in both orders) at every point within the bound",
 	"C16": ruleA + "; in every execution a vector-clock happens-before monitor (edges: spawn, thread end->WaitGroup.Wait, Unlock->Lock, channel send->receive, cancel->observing Done, peer write->read, SetDeadline/Close->the I/O they fail) checks every instrumented read/write of a field of a struct declared in packages varlink/ctxio (fields never written after construction are skipped) for a conflicting HB-unordered access",
@@ -30,6 +32,7 @@ var rules = map[string]string{
 }
 
 var assumptions = map[string][]string{
+	"C13": {"reference model: names in registration order after org.varlink.service, descriptions verbatim, registration refused iff duplicate or serving (serving = the serving call is blocked in Accept)", "identity and description strings are valid UTF-8 from a small adversarial alphabet incl. a 76 KiB description", "the race aspect of registering while serving is C16's"},
 	"C17": {"vnet.Conn implements the documented net.Conn deadline semantics (a deadline in the past fails pending and future I/O with a Timeout error, the zero deadline clears it); whether a real transport does is the subject of the separate transport matrix", "a context deadline is a far-future time plus two events: the context expiring and the connection deadline firing", "stream oracle: bytes may be lost only if they had arrived before a cancelled operation returned"},
 	"C10": {"classifyCall restates 'a JSON value of the call's shape' with encoding/json used only as a generic decoder", "when the peer has closed or aborted, what was answered and dispatched must be a prefix of the reference (how far the service got is schedule dependent); with a half-close it must equal the reference", "vnet: abort discards unread data and fails reads with ECONNRESET, writes to a closed or aborted peer fail with EPIPE"},
 	"C01": {"reference model refConn restates the property text (call order, accepted reply attempts only, oneway silence, continues needs more, handler error ends the connection)", "clients are raw byte writers that half-close after their script, so reply writes never fail", "vnet semantics and scheduling-point sufficiency as for C14"},
